@@ -1270,6 +1270,23 @@ theorem deleteRange_emits_valid_payload (S : Schema) (hdet : detB S = true) (hle
   · simp [throw, throwThe, MonadExceptOf.throw] at h
   · exact delete_emits_valid_payload S hdet hleaf doc _ _ hv hattrs st h
 
+/-- **`fit_around_shape`** — every replace-around answer of `replace_step`, whatever the request: it starts at `from`,
+    its gap is `[to, to.end())` — the rest of the parent of `to` — and the structure flag is not set -/
+theorem fit_around_shape (S : Schema) (doc : Node) (f t : Nat) (req : Slice) (F T G1 G2 : Nat) (sl : Slice)
+    (ins : Nat) (b : Bool) (h : replaceStep S doc f t req = .ok (some (.replaceAround F T G1 G2 sl ins b))) :
+    b = false ∧ F = f ∧ ∃ rt, doc.resolve t = some rt ∧ G1 = rt.pos ∧ G2 = rt.end_ rt.depth :=
+  replaceStep_around_shape S doc f t req F T G1 G2 sl ins b h
+
+/-- … and on a valid document that gap is a closed slice of valid nodes: what `Slice.insert_at` puts into the
+    slice when the step is applied -/
+theorem fit_around_gap_valid (S : Schema) (doc : Node) (f t : Nat) (req : Slice) (hv : C01.Valid S doc)
+    (F T G1 G2 : Nat) (sl : Slice) (ins : Nat) (b : Bool)
+    (h : replaceStep S doc f t req = .ok (some (.replaceAround F T G1 G2 sl ins b))) (gap : Slice)
+    (hg : doc.slice G1 G2 = .ok gap) : S.checkKids gap.content = true := by
+  obtain ⟨_, _, rt, hrt, e1, e2⟩ := replaceStep_around_shape S doc f t req F T G1 G2 sl ins b h
+  subst e1; subst e2
+  exact gap_to_end_valid S hrt hv gap hg
+
 /-- **`delete_around_is_move`** — a replace-around answer of `replace_step` for a deletion moves the rest of the
     textblock of `to` behind `from`: `insert = 0` (nothing is placed in front of the gap), the gap is
     `[to, to.end())`, the structure flag is not set -/
@@ -1387,6 +1404,32 @@ example :
      | _ => false) = true ∧
     -- `openValid S 0 0` of that slice
     S.checkKids [.elem 1 [] [] [.text [120] []]] = true := by decide +kernel
+
+/-- the guard `closableB` is needed: with figure content `img? | text+ img` (`img` with a required attribute, so not
+    generatable) every other hypothesis of `insertInline_emits_valid_payload` holds, and typing `"x"` in front of
+    `doc(figure())` emits `<figure("x")>` — `close_frontier_node` found no filling and closed the wrapper short of
+    its `img`: not a valid payload.  (The real `Schema(...)` refuses this content expression: `check_for_dead_ends`
+    raises SyntaxError "Only non-generatable nodes (img) in a required position"; replayed on /repo.) -/
+example :
+    let nt (name : String) (isText inl isLeaf : Bool) (dfa : Array DfaState) (attrs : List AttrDecl) : NodeType :=
+      { name := name, isText := isText, isInline := isText || isLeaf, isLeaf := isLeaf, isAtom := isLeaf,
+        inlineContent := inl, isolating := false, defining := false, code := false,
+        dfa := dfa, markSet := none, attrs := attrs }
+    let S : Schema := { nodes := #[nt "doc" false false false #[⟨false, [(1, 1)]⟩, ⟨true, [(1, 1)]⟩] [],
+                                   nt "figure" false true false
+                                     #[⟨true, [(2, 1), (3, 2)]⟩, ⟨false, [(2, 1), (3, 2)]⟩, ⟨true, []⟩] [],
+                                   nt "text" true false true #[⟨true, []⟩] [],
+                                   nt "img" false false true #[⟨true, []⟩] [⟨"src", false, ""⟩]],
+                        marks := #[], top := 0, textTy := 2 }
+    let doc := Node.elem 0 [] [] [.elem 1 [] [] []]
+    let sl : Slice := ⟨[.text [120] []], 0, 0⟩
+    detB S = true ∧ S.fillersOKB = true ∧ S.wrapOKB = true ∧ S.labelsOKB = true ∧ PM.FromDom.leafOkB S = true ∧
+    textStableC S = true ∧ S.closableB = false ∧ sl.inlineLeaves S = true ∧ sl.closedValid S = true ∧
+    S.checkNode doc = true ∧ S.nodeAttrsOK doc = true ∧
+    (match replaceStep S doc 0 0 sl with
+     | .ok (some (.replace 0 0 sl' _)) => sl' == ⟨[.elem 1 [] [] [.text [120] []]], 0, 0⟩
+     | _ => false) = true ∧
+    S.checkKids [.elem 1 [] [] [.text [120] []]] = false := by decide +kernel
 
 /-- **`coherent_invariant`** — the key invariant `FitState.coherentB` (with the ghost level) is an invariant
     of the loop of `fit` (Proofs/FitCoherent.lean, `Coh` = the proposition behind the Boolean):
